@@ -220,7 +220,7 @@ class C15(object):
                 # motor positions as the data files hold them: float64, float32, or whole numbers stored as integers
                 "motor_dtype": rnd.choice(["float64", "float64", "float32", "int64"]),
                 # the overlap matrix is dumped to a file between labelling and merging
-                "dump_between": rnd.random() < 0.2,
+                "dump_between": rnd.random() < 0.2, "scipy_first": rnd.random() < 0.25,
                 "relabel_edges": ([[rnd.randrange(n), rnd.randrange(n)] for _ in range(rnd.randint(1, 3))] if rnd.random() < 0.2 else None)}
 
     def describe(self, desc):
@@ -373,6 +373,10 @@ class C15(object):
             idt = np.dtype(desc.get("idx_dtype", "int64"))
             tab = props.pks_table(ipk=np.array([0, n]), pk_props=np.array(desc["props"], np.int64),
                                   rc=np.array([ei, ej, np.ones(len(E), np.int64)], idt).reshape(3, len(E)))
+            if desc.get("scipy_first") and len(E):
+                # the other route to the same labelling (scipy's connected components): same partition, labels 0..n-1
+                nls, labs = tab.find_uniq(use_scipy=True)
+                res["scipy"] = (int(nls), np.array(labs))
             nl, lab = tab.find_uniq()
             res["nlabel"], res["labels"] = int(nl), np.array(lab)
             om = lay(desc["omega"], True)
@@ -420,6 +424,12 @@ class C15(object):
             for nm, o in saved.items():
                 setattr(props, nm, o)
             props.numba = saved_numba
+        if viol is None and res.get("scipy"):
+            nls, labs = res["scipy"]
+            ms_, mw_ = {}, {}
+            if nls != ncomp or [ms_.setdefault(int(x), len(ms_)) for x in labs] != [mw_.setdefault(int(x), len(mw_)) for x in want] or \
+                    sorted(set(labs.tolist())) != list(range(ncomp)):
+                viol = V("partition-differs", "find_uniq(use_scipy=True): %d labels, the graph has %d components (or another partition)" % (nls, ncomp))
         if viol is None and res.get("relabel"):
             nl2, lab2, E2 = res["relabel"]
             want2, nc2 = components(n, [a for a, b in E2], [b for a, b in E2])
